@@ -388,7 +388,7 @@ func TestC07(t *testing.T) {
 	rec := ev.New("C07")
 	defer Finish(t, rec)
 	debug.SetGCPercent(400)
-	rec.Rule("(a) rapid state machine over golua's Go context API (PushContext/PopContext/RequireCPU/RequireMem/ReleaseMem/SetStopLevel/Thread.CallContext with nested bodies), limits and amounts drawn from {0=unlimited, 1, 2, small, parent-remaining-1/+0/+1, soft-remaining±1, 2^63±2, 2^64-3..2^64-1}, flag subsets, huge-or-zero time limits; after every step the whole Parent() chain is compared with the big-integer model internal/ctxref (hard, soft, used, flags, status, Due) and the property's statements are checked on the observed values (child hard <= parent remaining, soft <= hard, flags superset, used < hard, net granted work under every finite limit < limit). (b) all action sequences up to a depth bound over a 27-token alphabet. (c) generated Lua programs (nesting depth <= 4) of runtime.callcontext/pcall/coroutines with tight, medium and ample budgets, checked by relations between context reports taken before/inside/after each call. Non-trivial: a context is terminated at depth >= 2, or ending a context re-charges a parent to within 2 units of its hard limit, or an amount is within 2 of 2^63 or 2^64 (machine); a kill inside a nested context (Lua); distinct by hash of the executed action list / program.")
+	rec.Rule("(a) rapid state machine over golua's Go context API (PushContext/PopContext/RequireCPU/RequireMem/ReleaseMem/SetStopLevel/Thread.CallContext with nested bodies), limits and amounts drawn from {0=unlimited, 1, 2, small, parent-remaining-1/+0/+1, soft-remaining±1, 2^63±2, 2^64-3..2^64-1}, flag subsets, huge-or-zero time limits; after every step the whole Parent() chain is compared with the big-integer model internal/ctxref (hard, soft, used, flags, status, Due) and the property's statements are checked on the observed values (child hard <= parent remaining, soft <= hard, flags superset, used < hard, net granted work under every finite limit < limit). (b) all action sequences up to a depth bound over a 27-token alphabet. (c) generated Lua programs (nesting depth <= 4) of runtime.callcontext/pcall/coroutines with tight, medium and ample budgets, checked by relations between context reports taken before/inside/after each call. (d) work done while a limited context is being left: {finaliser of a garbage / still referenced value, close handler} x body ended by {return, error, error with a table, caught error then return} x own limit {3000, 50000} x enclosing limit {none, ample, tighter} x {counting loop, one bulk request}: the work is cut off, the context whose limit is hit reports killed, used <= kill everywhere, the loop count stays under the tightest limit, the parent's usage covers the child's. Non-trivial: a context is terminated at depth >= 2, or ending a context re-charges a parent to within 2 units of its hard limit, or an amount is within 2 of 2^63 or 2^64 (machine); a kill inside a nested context (Lua); distinct by hash of the executed action list / program.")
 	rec.Assume("a hard limit counts as the context's own only if it was requested and is strictly smaller than what the enclosing context had left; a context terminated by a limit it inherited is ended by Thread.CallContext (pcall, runtime.callcontext) together with every enclosing context up to and including the owner of the limit; contexts pushed with PushContext by the embedder are ended by the embedder (the harness), which terminates nothing else; forced kills (killcontext, HardStop) end one context only")
 	rec.Assume("ReleaseMem of more than the current context has used gives the rest back in the enclosing contexts, saturating at 0 at each level")
 	rec.Assume("time limits are data only: finite time limits are >= 2^40 ms so the clock never terminates anything; the parent's clock consumption at push time is read from golua and fed to the model as an input")
